@@ -207,6 +207,35 @@ fn case(t: &mut Tape, info: &mut CaseInfo) -> Result<(), String> {
     same("results after inspect round trip", &calc_for_mode(&round, &map, target)?, &calc_for_mode(&d, &map, target)?)?;
     info.comparisons += 3;
 
+    // (c') an InspectDifficulty filled in by hand with the *raw* (unclamped) values must turn into the same
+    // Difficulty as the setter chain, i.e. the documented clamps apply on that route as well
+    {
+        use rosu_pp::any::{InspectDifficulty, ModsDependent};
+        let mut raw = InspectDifficulty::default();
+        for s in &last_per_kind {
+            match s {
+                Setter::Mods(m) => raw.mods = m.build(target),
+                Setter::Passed(n) => raw.passed_objects = Some(*n),
+                Setter::Clock(c) => raw.clock_rate = Some(*c),
+                Setter::Ar(v, w) => raw.ar = Some(ModsDependent { value: *v, with_mods: *w }),
+                Setter::Cs(v, w) => raw.cs = Some(ModsDependent { value: *v, with_mods: *w }),
+                Setter::Hp(v, w) => raw.hp = Some(ModsDependent { value: *v, with_mods: *w }),
+                Setter::Od(v, w) => raw.od = Some(ModsDependent { value: *v, with_mods: *w }),
+                Setter::HrOffsets(h) => raw.hardrock_offsets = Some(*h),
+                Setter::Lazer(l) => raw.lazer = Some(*l),
+            }
+        }
+        let from_raw = raw.clone().into_difficulty();
+        if from_raw != d {
+            return Err(format!("InspectDifficulty with raw values {raw:?} turns into {from_raw:?}, the setter chain gives {d:?}"));
+        }
+        let via_from: Difficulty = raw.into();
+        if via_from != d {
+            return Err("Difficulty::from(InspectDifficulty) differs from the setter chain".into());
+        }
+        info.comparisons += 2;
+    }
+
     // (d) clamps
     let insp = d.clone().inspect();
     let mut out_of_range = false;
@@ -274,7 +303,7 @@ pub fn property() -> Property {
         id: "C18",
         subchecks: vec![SubCheck {
             name: "setters-equivalence",
-            rule: "G-MAP (all modes + converts, <=25 objects) x a generated list of 1-8 setter applications (mods in any representation, passed_objects, clock_rate incl. 0/-1/inf/1e300, ar/cs/hp/od with both flags incl. +-inf and far out of range, hardrock_offsets, lazer) x score spec x a generated permutation. Oracle: (a) Performance::<setters> == Performance::difficulty(Difficulty::<setters>) on all fields; (b) any order of independent setters gives an == Difficulty and equal results, repeated setters: last wins; (c) inspect().into_difficulty() and InspectDifficulty::from round-trip to an == Difficulty; (d) inspect() shows clamp(clock,0.01,100) / clamp(value,-20,20) and results equal those of the clamped value; (e) setters documented as irrelevant for the mode (Difficulty/Performance ar+cs for taiko/mania, hardrock_offsets outside catch, lazer for taiko/catch; score setters combo for mania, n50 for taiko, n_katu/n_geki/tick setters outside their modes, priority for catch) leave results untouched. Non-trivial: >=3 distinct setter kinds and an out-of-range value or an irrelevant setter.",
+            rule: "G-MAP (all modes + converts, <=25 objects) x a generated list of 1-8 setter applications (mods in any representation, passed_objects, clock_rate incl. 0/-1/inf/1e300, ar/cs/hp/od with both flags incl. +-inf and far out of range, hardrock_offsets, lazer) x score spec x a generated permutation. Oracle: (a) Performance::<setters> == Performance::difficulty(Difficulty::<setters>) on all fields; (b) any order of independent setters gives an == Difficulty and equal results, repeated setters: last wins; (c) inspect().into_difficulty() and InspectDifficulty::from round-trip to an == Difficulty, and an InspectDifficulty filled in by hand with the raw unclamped values converts to the same Difficulty as the setter chain; (d) inspect() shows clamp(clock,0.01,100) / clamp(value,-20,20) and results equal those of the clamped value; (e) setters documented as irrelevant for the mode (Difficulty/Performance ar+cs for taiko/mania, hardrock_offsets outside catch, lazer for taiko/catch; score setters combo for mania, n50 for taiko, n_katu/n_geki/tick setters outside their modes, priority for catch) leave results untouched. Non-trivial: >=3 distinct setter kinds and an out-of-range value or an irrelevant setter.",
             quick: 10_000,
             thorough: 200_000,
             tape_len: 1300,
